@@ -176,6 +176,11 @@ func (publisher *Publisher) sendStatisticsFiles(files chan *core.File) {
 }
 
 func (publisher *Publisher) sendFiles(files chan *core.File) {
+	// The places have to be known before any page is named. The names of the
+	// individual pages must not collide with the names of the place pages, and
+	// every link has to be made from the same names as the files.
+	publisher.Places()
+
 	publisher.sendIndividualFiles(files)
 	publisher.sendPlaceFiles(files)
 	publisher.sendFamilyFiles(files)
